@@ -52,10 +52,15 @@ def gen_family(rng, variant):
     if variant == 'copies':
         return rng.choice(['vc', 'scripted', 'parser', 'linker', 'linker', 'alias', 'tracer', 'alias+tracer'])
     if variant == 'reindex':
-        return rng.choice(['vc', 'vc', 'scripted', 'parser', 'pandasmixin', 'pandasmixin', 'tracer', 'alias+tracer'])
+        return rng.choice(['vc', 'vc', 'vc', 'scripted', 'scripted', 'parser', 'parser', 'pandasmixin', 'pandasmixin', 'pandasmixin', 'tracer', 'alias+tracer', 'alias', 'tracer+pandasmixin', 'pandasmixin+tracer', 'alias+pandasmixin', 'pandasmixin+tracer+alias'])
     if variant == 'labels':
         return rng.choice(['vc', 'vc', 'vc', 'scripted', 'parser', 'linker', 'alias', 'alias'])
-    return rng.choice(['vc', 'vc', 'vc', 'scripted', 'parser', 'linker'])
+    return rng.choice(['vc', 'vc', 'vc', 'vc', 'scripted', 'scripted', 'parser', 'parser', 'linker', 'linker', 'tracer', 'pandasmixin', 'pandasmixin+tracer', 'alias+tracer'])
+
+
+def mixed_family(fam):
+    """A scripted model class under a stack of extension mixins, named in MRO order ('tracer+pandasmixin', ...)."""
+    return fam == 'scripted' or set(fam.split('+')) <= {'alias', 'tracer', 'pandasmixin'}
 
 
 def op_templates():
@@ -295,7 +300,7 @@ def generate(rng, idx, tier, variant):
     spec = {'family': fam, 'span': {'type': stype, 'n': n, 'origin': rng.choice([0, 1, 3, 7]), 'step': rng.choice([2, 2, 3])}, 'strict': rng.random() < 0.25}
     g = {'base': 0, 'names': {0: []}, 'np': 1}
     ELEMS = {'float': 'float', 'int': 'int', 'bool': 'bool', 'str': 'str'}
-    if fam in ('scripted', 'alias', 'tracer', 'alias+tracer', 'pandasmixin'):
+    if mixed_family(fam):
         ms = S.gen_spec(rng, 'solver', tier)
         ms['lags'] = min(ms['lags'], max(0, (n - 1) // 2))
         ms['leads'] = min(ms['leads'], max(0, n - 1 - ms['lags']))
@@ -539,7 +544,16 @@ def generate(rng, idx, tier, variant):
                     fills['iterations'] = rng.choice([0, 5, 0, 'X', 2.5])
             if rng.random() < 0.2:
                 fills['NOPE'] = 1
-            ops.append({'op': 'reindex', 'obj': p, 'idx': idxs, 'as': rng.choice(['same', 'same', 'list', 'np', 'pd']), 'fill_value': fv, 'fills': fills, 'strict': rng.choice([None, None, True, False]), 'mode': rng.choice(['idx'] * 8 + ['same-object', 'range-phase']), 'k': rng.randrange(3)})
+            if spec.get('aliases') and rng.random() < 0.3:
+                # a fill keyword spelt as an alias: not a name the container's index knows, so rejected under strict
+                # (and otherwise applied to nothing) - never accepted and then dropped
+                fills[rng.choice(spec['aliases'])[0]] = rng.choice([1, 3.5])
+            pd_args = None
+            if 'pandasmixin' in spec['family'] and rng.random() < 0.3:
+                # the pandas extension's own arguments (fill methods, fill values of another type): whatever they fill
+                # in, every series keeps its length and its dtype
+                pd_args = rng.choice([{'method': 'ffill'}, {'method': 'bfill'}, {'method': 'nearest'}, {'fill_value': 2.5}, {'fill_value': 0}, {'ffill_': '?'}, {'bfill_': '?'}, {'fills': 7.5}, {'method': 'ffill', 'limit': 1}])
+            ops.append({'op': 'reindex', 'obj': p, 'pd_args': pd_args, 'idx': idxs, 'as': rng.choice(['same', 'same', 'list', 'np', 'pd']), 'fill_value': fv, 'fills': fills, 'strict': rng.choice([None, None, True, False]), 'mode': rng.choice(['idx'] * 8 + ['same-object', 'range-phase']), 'k': rng.randrange(3)})
             if g['np'] < MAXP:
                 g['names'][g['np']] = list(names)
                 g['np'] += 1
@@ -589,21 +603,22 @@ def build_first(fsic, spec):
             if nm in m.__dict__['index']:
                 m.__dict__['_' + nm][:] = vals
         return m, span
-    if fam in ('scripted', 'alias', 'tracer', 'alias+tracer', 'pandasmixin'):
+    if mixed_family(fam):
         from fsic.extensions import AliasMixin, PandasIndexFeaturesMixin, TracerMixin
 
         base = probes.make_scripted(fsic, spec['model'])
         bases = []
         attrs = {}
-        if 'alias' in fam:
-            bases.append(AliasMixin)
-            attrs['ALIASES'] = dict(map(tuple, spec.get('aliases', [])))
-        if 'tracer' in fam:
-            bases.append(TracerMixin)
-            if spec.get('trace_variables'):
-                attrs['TRACE_VARIABLES'] = list(spec['trace_variables'])
-        if fam == 'pandasmixin':
-            bases.append(PandasIndexFeaturesMixin)
+        for part in ([] if fam == 'scripted' else fam.split('+')):  # (MRO order as the family name spells it)
+            if part == 'alias':
+                bases.append(AliasMixin)
+                attrs['ALIASES'] = dict(map(tuple, spec.get('aliases', [])))
+            elif part == 'tracer':
+                bases.append(TracerMixin)
+                if spec.get('trace_variables'):
+                    attrs['TRACE_VARIABLES'] = list(spec['trace_variables'])
+            elif part == 'pandasmixin':
+                bases.append(PandasIndexFeaturesMixin)
         cls = type('Mixed', tuple(bases) + (base,), attrs) if bases else base
         m = cls(span, strict=spec['strict'], **dtk)
         for nm, vals in spec['model']['init'].items():
@@ -1745,6 +1760,7 @@ def do_reindex(fsic, parties, party, op, ctx, before_obs, universe_spec, spec):
     if 'trace' in d['index']:
         ctx.probe('reindex:of-a-traced-model')
     n = party.n
+    new_spec = None
     uni = spans.make_span(universe_spec)
     uni_labels = spans.elements(uni)
     old_idx = list(range(3, 3 + n))
@@ -1770,7 +1786,8 @@ def do_reindex(fsic, parties, party, op, ctx, before_obs, universe_spec, spec):
         new_type = 'range-out-of-phase'
         idxs = None
     elif how == 'same' and contiguous:
-        new_span = spans.make_span(dict(party.span_spec, n=len(idxs), origin=universe_spec['origin'] + idxs[0]))
+        new_spec = dict(party.span_spec, n=len(idxs), origin=universe_spec['origin'] + idxs[0])
+        new_span = spans.make_span(new_spec)
         new_type = ty
     else:
         items = [uni_labels[j] for j in idxs]
@@ -1817,7 +1834,7 @@ def do_reindex(fsic, parties, party, op, ctx, before_obs, universe_spec, spec):
     fv = op['fill_value']
     strict_arg = op['strict']
     eff_strict = bool(d['_strict']) if strict_arg is None else strict_arg
-    pandas_mixin = party.fam == 'pandasmixin'
+    pandas_mixin = 'pandasmixin' in party.fam
     unknown = [k for k in fills if k not in d['index']]
     if pandas_mixin:
         # the property covers the pandas-based extension with its default (pandas) arguments: no fill value and no fills
@@ -1825,6 +1842,40 @@ def do_reindex(fsic, parties, party, op, ctx, before_obs, universe_spec, spec):
         fills = {k: v for k, v in fills.items() if k == 'NOPE'}
         fv = None
         unknown = [k for k in fills if k not in d['names']]
+    if pandas_mixin and op.get('pd_args'):
+        pa = dict(op['pd_args'])
+        data_names = [nm for nm in d['names']]
+        pick = data_names[op.get('k', 0) % len(data_names)] if data_names else None
+        kw_ = {}
+        for k_, v_ in pa.items():
+            if v_ == '?':
+                v_ = pick
+            if k_ == 'fills':
+                if pick is not None:
+                    kw_[pick] = v_
+            elif v_ is not None:
+                kw_[k_] = v_
+        try:
+            y = x.reindex(new_span, **kw_)
+        except Exception:
+            ctx.probe('reindex:pandas-arguments:raised')
+            return 'may-raised'
+        ctx.probe('reindex:pandas-arguments:' + '+'.join(sorted(pa)))
+        ctx.check('C12', 'pandas-mixin/arguments/same-class', type(y) is type(x), {'got': type(y).__name__})
+        yd = y.__dict__
+        ctx.check('C12', 'pandas-mixin/arguments/variable-order', list(yd['index']) == list(d['index']), {'got': list(yd['index'])})
+        for nm in d['index']:
+            got = yd.get('_' + nm)
+            ok_ = isinstance(got, np.ndarray) and got.shape == (len(new_labels),)
+            ctx.check('C12', 'pandas-mixin/arguments/length', ok_, {'name': nm, 'shape': list(getattr(got, 'shape', []))})
+            if ok_:
+                ctx.check('C12', 'pandas-mixin/arguments/dtype-carried-over', got.dtype == party.ref[nm].dtype, {'name': nm, 'got': str(got.dtype), 'want': str(party.ref[nm].dtype), 'arguments': canon(kw_)})
+        if len(parties) < MAXP:
+            q = Party(y, new_labels, None, party.fam, universe=True)
+            q.origin = 'reindexed'
+            q.dtypes = dict(party.dtypes)
+            parties.append(q)
+        return 'ok'
     kw = dict(fills)
     if fv is not None:
         kw['fill_value'] = fv
@@ -1905,9 +1956,13 @@ def do_reindex(fsic, parties, party, op, ctx, before_obs, universe_spec, spec):
             # each period present in both spans holds its old record (equal in content; that it is not the very same
             # object is the independence clause, exercised by the operations that follow)
             old_ = d['_' + nm]
+            want_fill = fills.get(nm, fv)
             for p_, j_ in enumerate(source):
                 if j_ is not None:
                     ctx.check('C12', f'{sig}/overlap/object-{relation}', O.obs_value(got[p_]) == O.obs_value(old_[j_]), {'name': nm, 'period': p_})
+                elif want_fill is not None and not pandas_mixin:
+                    # a fill that was asked for applies to this series as to any other (no default is defined for it)
+                    ctx.check('C12', f'{sig}/fill/object-explicit', type(got[p_]) is type(want_fill) and got[p_] == want_fill, {'name': nm, 'period': p_, 'got': repr(got[p_])[:40], 'want': repr(want_fill)})
             continue
         if nm in expected and got.shape == expected[nm].shape and got.dtype == expected[nm].dtype:
             kindname = {'f': 'float', 'i': 'int', 'u': 'int', 'b': 'bool', 'U': 'str'}.get(got.dtype.kind, 'other')
@@ -1931,7 +1986,9 @@ def do_reindex(fsic, parties, party, op, ctx, before_obs, universe_spec, spec):
         if hasattr(x, key):
             ctx.check('C12', f'{sig}/carried-over/{key}', getattr(y, key, None) == getattr(x, key), {'before': canon(getattr(x, key)), 'after': canon(getattr(y, key, None))})
     if len(parties) < MAXP:
-        q = Party(y, new_labels, None, party.fam, universe=True)
+        # (a result on a span of the same kind keeps the kind's spec, so that later label operations on it also use the
+        # other spellings of its labels - '2001Q3' for a quarterly period, say)
+        q = Party(y, new_labels, new_spec, party.fam, universe=True)
         q.origin = 'reindexed'
         q.dtypes = dict(party.dtypes)
         parties.append(q)
